@@ -116,15 +116,26 @@ class World:
             self.hook(self.mid, ["width"], tag="mid.")
             return
         self.parents = [Parent(), Parent()]
-        cls = {"delegate": Child, "proto": PChild, "proto2": PChild2}[kind]
-        self.attrs = dict(ALL_ATTRS) if kind != "proto2" else \
+        cls = {"delegate": Child, "proto": PChild, "proto2": PChild2,
+               "proto2late": PChild2}[kind]
+        self.attrs = dict(ALL_ATTRS) if not kind.startswith("proto2") else \
             {"x": "x", "xx": "y"}
         self.c = cls(parent=self.parents[0])
         self.cur = 0
         self.P = [{"x": 1, "y": 2, "pre_q": 3, "pp_r": 4, "_t": 6,
                    "pp_t": 66, "nl": 7} for _ in range(2)]
         self.L = {}
-        self.hook(self.c, list(self.attrs))
+        #: attributes whose handlers are attached right now ("proto2late":
+        #: the handlers of x come and go during the history)
+        self.unhooked = set()
+        self.handlers = {}
+        if kind == "proto2late":
+            self.hook(self.c, ["xx"])
+            self.unhooked.add("x")
+            for mech in ("otc", "obs"):
+                self.calls[("x", mech)] = []
+        else:
+            self.hook(self.c, list(self.attrs))
 
     def hook(self, obj, names, tag=""):
         for n in names:
@@ -142,8 +153,16 @@ class World:
                 calls[key].append(ev.new)
             return h
         for n in names:
-            obj.on_trait_change(mk_otc((tag + n, "otc")), n)
-            obj.observe(mk_obs((tag + n, "obs")), n)
+            h1, h2 = mk_otc((tag + n, "otc")), mk_obs((tag + n, "obs"))
+            obj.on_trait_change(h1, n)
+            obj.observe(h2, n)
+            if hasattr(self, "handlers"):
+                self.handlers[n] = (h1, h2)
+
+    def unhook(self, obj, n):
+        h1, h2 = self.handlers.pop(n)
+        obj.on_trait_change(h1, n, remove=True)
+        obj.observe(h2, n, remove=True)
 
     def clear(self):
         for l in self.calls.values():
@@ -158,7 +177,10 @@ def menu(kind):
             evs += [("set_leaf", i, v) for i in (0, 1) if v != "bad"]
         evs += [("swap", 0), ("swap", 1)]
         return evs
-    attrs = ALL_ATTRS if kind != "proto2" else {"x": "x", "xx": "y"}
+    attrs = ALL_ATTRS if not kind.startswith("proto2") else \
+        {"x": "x", "xx": "y"}
+    if kind == "proto2late":
+        evs += [("hook", "x"), ("unhook", "x")]
     for a in attrs:
         for v in VALS:
             evs.append(("set_child", a, v))
@@ -173,6 +195,10 @@ def menu(kind):
 
 
 def enabled(w, ev):
+    if ev[0] == "hook":
+        return ev[1] in w.unhooked
+    if ev[0] == "unhook":
+        return ev[1] not in w.unhooked
     if ev[0] == "swap":
         return w.cur != ev[1]
     if ev[0] == "del_child":
@@ -247,7 +273,7 @@ def step(ctx, w, ev, hist, check):
         w.P[i][tgt] = v
         changed = old != v
         for a, t in ATTRS.items():
-            if t != tgt or a in NOLISTEN:
+            if t != tgt or a in NOLISTEN or a in w.unhooked:
                 continue
             linked = (i == w.cur) and (a not in w.L)
             for mech in ("otc", "obs"):
@@ -277,6 +303,13 @@ def step(ctx, w, ev, hist, check):
         c.parent = w.parents[ev[1]]
         w.cur = ev[1]
         ctx.nontriv((w.kind, "swap", ev[1], repr(canon(w))))
+    elif k == "hook":
+        w.hook(c, [ev[1]])
+        w.unhooked.discard(ev[1])
+        w.clear()
+    elif k == "unhook":
+        w.unhook(c, ev[1])
+        w.unhooked.add(ev[1])
     # ---- read-back: everything equals the model
     cur = w.parents[w.cur]
     for i, p in enumerate(w.parents):
@@ -365,7 +398,7 @@ def chain_step(ctx, w, ev, hist, bad):
 def canon(w):
     if w.kind == "chain":
         return ("chain", w.M, w.cur)
-    return (w.kind, w.P, sorted(w.L.items()), w.cur)
+    return (w.kind, w.P, sorted(w.L.items()), w.cur, sorted(w.unhooked))
 
 
 def strict_target(ctx):
@@ -418,7 +451,7 @@ def run_history(ctx, kind, hist):
 
 def shards(tier):
     out = []
-    for kind in ("delegate", "proto", "proto2", "chain"):
+    for kind in ("delegate", "proto", "proto2", "proto2late", "chain"):
         for i in range(len(menu(kind))):
             out.append({"kind": kind, "first": i})
     return out
@@ -427,7 +460,7 @@ def shards(tier):
 def run_shard(ctx, shard, tier):
     kind = shard["kind"]
     evs = menu(kind)
-    small = kind in ("proto2", "chain")
+    small = kind in ("proto2", "proto2late", "chain")
     depth = (5 if small else 3) if tier == "quick" else (6 if small else 4)
     frontier = [[]]
     n_exec = 0
